@@ -176,12 +176,73 @@ def sql_cases(ctx):
     return out
 
 
+def gen_coll_history(rng):
+    n = rng.randint(1, 5)
+    rows = sorted(rng.sample(range(n), rng.randint(0, n)))
+    others = [[sid, sorted(rng.sample(range(n), rng.randint(0, n)))] for sid in range(2, 2 + rng.randint(0, 2))]
+    ops = []
+    for _ in range(rng.randint(3, 10)):
+        k = rng.choice(['len', 'iter', 'count', 'count', 'is_empty', 'is_empty', 'contains', 'contains', 'contains', 'add', 'add', 'remove', 'remove',
+                        'add_rev', 'remove_rev', 'flush', 'other_len'])
+        if k in ('contains', 'add', 'remove', 'add_rev', 'remove_rev'): ops.append([k, rng.randrange(n)])
+        elif k == 'other_len': ops.append([k, rng.choice([2, 3])])
+        else: ops.append([k])
+    return {'regime': rng.choice(['default', 'np0', 'nphuge', 'lazy']), 'courses': n, 'rows': rows, 'others': others,
+            'preload': rng.choice(['none', 'none', 'partial', 'full']), 'ops': ops}
+
+
+def coll_histories(ctx, n):
+    rng = random.Random(ctx.seed * 99991 + 2399)
+    return [gen_coll_history(rng) for _ in range(n)]
+
+
+def csd(sd):
+    if sd is None: return '(mksd [] false [] [] None None)'
+    nl = lambda xs: '[' + '; '.join(str(x) for x in xs) + ']'
+    return '(mksd %s %s %s %s %s %s)' % (nl(sd['items']), 'true' if sd['full'] else 'false', nl(sd['added']), nl(sd['removed']),
+                                         'None' if sd['absent'] is None else '(Some %s)' % nl(sd['absent']),
+                                         'None' if sd['count'] is None else '(Some %d)' % sd['count'])
+
+
+def coll_exprs(h, steps):
+    """Coq booleans for one recorded history of the owner's collection (Model/C23Load.v)"""
+    nl = lambda xs: '[' + '; '.join(str(x) for x in xs) + ']'
+    out = []
+    for st in steps:
+        op, (rb, sb), (ra, sa), res = st['op'], st['before'], st['after'], st['result']
+        if res[0] != 'v':
+            out.append((st, None)); continue
+        R, S, RA, SA = nl(rb), csd(sb), nl(ra), csd(sa)
+        inv = 'inv_b %s %s && inv_b %s %s' % (R, S, RA, SA)
+        k = op[0]
+        if k in ('len', 'iter'):
+            val = ('Nat.eqb (length r) %d' % res[1]) if k == 'len' else 'same_elems r %s' % nl(res[1])
+            e = "let '(r, (rows1, sd1)) := do_copy %s %s in %s && same_elems rows1 %s && sd_same sd1 %s" % (R, S, val, RA, SA)
+        elif k == 'count':
+            e = "let '(n, sd1) := do_count %s %s in Nat.eqb n %d && sd_same sd1 %s" % (R, S, res[1], SA)
+        elif k == 'is_empty':
+            first = '(fun _ => %s)' % ('Some %d' % sa['items'][0] if (sa and sa['items'] and not res[1]) else 'None')
+            e = "let '(b, (rows1, sd1)) := do_is_empty %s %s %s in Bool.eqb b %s && same_elems rows1 %s && sd_same sd1 %s" % (
+                first, R, S, 'true' if res[1] else 'false', RA, SA)
+        elif k == 'contains':
+            e = "let '(b, (rows1, sd1)) := do_contains %d %s %s in Bool.eqb b %s && same_elems rows1 %s" % (op[1], R, S, 'true' if res[1] else 'false', RA)
+            if sb is not None: e += ' && sd_same sd1 %s' % SA
+        elif k == 'add': e = 'sd_same (do_add %d %s %s) %s && same_elems %s %s' % (op[1], R, S, SA, R, RA)
+        elif k == 'remove': e = 'sd_same (do_remove %d %s %s) %s && same_elems %s %s' % (op[1], R, S, SA, R, RA)
+        elif k == 'flush' and sb is not None and (sb['added'] or sb['removed']):
+            e = 'same_elems (flush_rows %s %s) %s && sd_same (flush_sd %s) %s' % (R, S, RA, S, SA)
+        else: e = 'true'
+        out.append((st, '(%s) && (%s)' % (inv, e)))
+    return out
+
+
 _cache = {}
 
 def run_all(ctx, n):
     if n not in _cache:
         progs = programs_for(ctx, n)
-        _cache[n] = (progs, vlib.run_impl('c23_driver.py', {'criteria': shapes(), 'sql': sql_cases(ctx), 'programs': progs}, timeout=1500))
+        _cache[n] = (progs, vlib.run_impl('c23_driver.py', {'criteria': shapes(), 'sql': sql_cases(ctx), 'programs': progs,
+                                                            'colls': coll_histories(ctx, max(60, n // 4))}, timeout=1500))
     return _cache[n]
 
 
@@ -197,7 +258,8 @@ def ccrit(c):
     if c[0] == 'OR': return '(COr %s)' % cl([cl(['(%d, %s)' % (e[0], cp(e[1])) for e in conj]) for conj in c[1]])
     raise ValueError(c[0])
 
-HEADER = 'Require Import PonyV.Base.PyBase PonyV.Model.C23Batch.\nOpen Scope nat_scope.\n'
+HEADER = ('Require Import PonyV.Base.PyBase PonyV.Model.C23Batch PonyV.Model.C23SetData PonyV.Gen.ContainsOrder PonyV.Model.C23Load.\n'
+          'Open Scope nat_scope.\n')
 
 
 def run_bools(ctx, exprs, chunk=400):
@@ -235,6 +297,12 @@ def correspondence(ctx):
             exprs.append('Bool.eqb (sem_all %s %s (construct %d %d %d %s)) %s' % (args, rowf, nc, len(keys), st, 'true' if rvs else 'false',
                                                                                 'true' if row in got else 'false'))
             meta.append(('sql-semantics', [nc, keys, row, rvs, st], got)); dist['sql_semantics_rows'] += 1
+    dist['setdata_steps'] = 0
+    for h, steps in zip(coll_histories(ctx, max(60, ctx.scale(500, 5000) // 4)), res['colls']):
+        for st, e in coll_exprs(h, steps):
+            if e is None:
+                disagreements.append({'what': 'collection operation raised', 'input': {'history': h, 'op': st['op']}, 'impl': st['result']}); continue
+            exprs.append(e); meta.append(('setdata-step', {'history': h, 'op': st['op']}, st)); dist['setdata_steps'] += 1
     bad = run_bools(ctx, exprs)
     for i in bad[:20]:
         kind, inp, impl = meta[i]
